@@ -2,7 +2,7 @@
 Glue for the rulebook pipeline (diff / patch / ordering): serves C01 C02 C03 C08 C16 C17.
 -/
 import AnnetModel.Glue.Common
-import AnnetModel.Model.Patch
+import AnnetModel.Model.Api
 
 namespace Annet.Glue.Rb
 open Lean Annet.Glue Annet.Rules Annet.Diff Annet.Patch
@@ -90,20 +90,20 @@ def diffH : Handler := fun j => do
   | .ok d => pure (Json.mkObj [("diff", Json.arr (d.map ditemToJson).toArray),
                                ("stripped", Json.arr ((stripUnchanged d).map ditemToJson).toArray)])
 
-/-- `{"op":"rb.patch", …, "do_commit":b, "strip_first":b}` → the two compositions of api/__init__.py:
-device mode (`strip_first=false`: pre from the full diff) and the pre-fix file mode (`strip_first=true`) -/
+/-- `{"op":"rb.patch", …, "do_commit":b, "mode":"device"|"file"}` → the front ends of api/__init__.py
+(`Api.deviceMode` = `_diff_and_patch`, `Api.fileMode` = `_read_old_new_diff_patch`) -/
 def patchH : Handler := fun j => do
   let job ← jobOfJson j
   let doCommit ← (← arg j "do_commit").getBool?
-  let stripFirst ← (← arg j "strip_first").getBool?
-  match makeDiff job.rules job.old job.new with
-  | .error e => pure (dErr e)
-  | .ok d =>
-    let d' := if stripFirst then stripUnchanged d else d
-    match makePatch job.v job.ordering doCommit (makePre d') with
-    | .error e => pure (pErr e)
-    | .ok t => pure (Json.mkObj [("patch", ptreeToJson t),
-                                 ("stripped", Json.arr ((stripUnchanged d).map ditemToJson).toArray)])
+  let mode := match j.getObjVal? "mode" with
+    | .ok (Json.str m) => m
+    | _ => "device"
+  let r := if mode == "file" then Api.fileMode runLogic job.v job.rules job.ordering job.old job.new
+           else Api.deviceMode runLogic job.v job.rules job.ordering doCommit job.old job.new
+  match r with
+  | .error e => pure (pErr e)
+  | .ok res => pure (Json.mkObj [("patch", ptreeToJson res.patch),
+                                 ("stripped", Json.arr (res.diff.map ditemToJson).toArray)])
 
 /-- `{"op":"rb.order_config", vendor, ordering, config}` -/
 def orderH : Handler := fun j => do
